@@ -33,6 +33,9 @@ type layer struct {
 	arr    *Term // lBaseArr
 	// caches
 	arrTerm  *Term
+	ownArr   *Term
+	runCache [][2]uint32
+	arrSize  *Term
 	arrNoArr bool
 	depth    int
 }
@@ -99,7 +102,21 @@ func (b *ByteArr) Write(idx *Term, v *Term) {
 }
 
 func (b *ByteArr) Read(idx *Term) *Term {
+	if !idx.IsConst() && b.top.canArr() {
+		b.top.frozen = true
+		return b.ex.tc.Select(b.ex.layerArrTerm(b.top, b.size), b.ex.tc.Extract(31, 0, idx))
+	}
 	return b.ex.readLayer(b.top, idx)
+}
+
+// plain: only concrete-index layers over a base (bulk element-wise copies are cheap)
+func (l *layer) plain() bool {
+	for x := l; x != nil; x = x.below {
+		if x.kind == lMove || x.kind == lStore {
+			return false
+		}
+	}
+	return true
 }
 
 // canArr: the layer stack below (inclusive) can be expressed as one SMT array term.
@@ -112,8 +129,8 @@ func (l *layer) canArr() bool {
 	return true
 }
 
-func (ex *Exec) layerArrTerm(l *layer) *Term {
-	if l.arrTerm != nil && (l.frozen) {
+func (ex *Exec) layerArrTerm(l *layer, size *Term) *Term {
+	if l.arrTerm != nil && l.frozen && l.arrSize == size {
 		return l.arrTerm
 	}
 	tc := ex.tc
@@ -124,9 +141,16 @@ func (ex *Exec) layerArrTerm(l *layer) *Term {
 	case lBaseArr:
 		t = l.arr
 	case lStore:
-		t = tc.Store(ex.layerArrTerm(l.below), tc.Extract(31, 0, l.idx), l.val)
+		t = tc.Store(ex.layerArrTerm(l.below, size), tc.Extract(31, 0, l.idx), l.val)
 	case lConc:
-		t = ex.layerArrTerm(l.below)
+		dense := size != nil && size.IsConst() && uint64(l.nset) == size.val
+		if dense {
+			// the layer overwrites the whole array: nothing below is visible
+			t = tc.ConstArr()
+		} else {
+			t = ex.layerArrTerm(l.below, size)
+		}
+		zeroBase := t.op == OConstArr
 		// deterministic order
 		keys := make([]uint32, 0, len(l.chunks))
 		for k := range l.chunks {
@@ -137,6 +161,9 @@ func (ex *Exec) layerArrTerm(l *layer) *Term {
 			ch := l.chunks[k]
 			for j := 0; j < chunkSz; j++ {
 				if ch[j] != nil {
+					if zeroBase && ch[j].IsConst() && ch[j].val == 0 {
+						continue
+					}
 					t = tc.Store(t, tc.BV(32, uint64(k*chunkSz+uint32(j))), ch[j])
 				}
 			}
@@ -146,6 +173,7 @@ func (ex *Exec) layerArrTerm(l *layer) *Term {
 	}
 	if l.frozen {
 		l.arrTerm = t
+		l.arrSize = size
 	}
 	return t
 }
@@ -173,16 +201,19 @@ func (ex *Exec) readLayer(l *layer, idx *Term) *Term {
 				if c.IsTrue() {
 					return x.val
 				}
-				if !c.IsFalse() {
+				if !c.IsFalse() && !ex.cannot(c) {
+					if ex.cannot(tc.Not(c)) {
+						return x.val
+					}
 					return tc.Ite(c, x.val, ex.readLayer(x.below, idx))
 				}
 			case lMove:
 				in := tc.And(tc.Cmp(OULE, x.dst, idx), tc.Cmp(OULT, idx, tc.Bin(OAdd, x.dst, x.n)))
-				if in.IsFalse() {
+				if in.IsFalse() || ex.cannot(in) {
 					continue
 				}
 				sv := ex.readLayer(x.src, tc.Bin(OAdd, x.srcOff, tc.Bin(OSub, idx, x.dst)))
-				if in.IsTrue() {
+				if in.IsTrue() || ex.cannot(tc.Not(in)) {
 					return sv
 				}
 				return tc.Ite(in, sv, ex.readLayer(x.below, idx))
@@ -197,30 +228,58 @@ func (ex *Exec) readLayer(l *layer, idx *Term) *Term {
 	// symbolic index
 	if l.canArr() {
 		l.frozen = true
-		return tc.Select(ex.layerArrTerm(l), tc.Extract(31, 0, idx))
+		return tc.Select(ex.layerArrTerm(l, nil), tc.Extract(31, 0, idx))
 	}
 	switch l.kind {
 	case lConc:
-		r := ex.readLayer(l.below, idx)
-		keys := make([]uint32, 0, len(l.chunks))
-		for k := range l.chunks {
-			keys = append(keys, k)
+		runs := l.runs()
+		if len(runs) == 0 {
+			return ex.readLayer(l.below, idx)
 		}
-		sortU32(keys)
-		for _, k := range keys {
-			ch := l.chunks[k]
-			for j := 0; j < chunkSz; j++ {
-				if ch[j] != nil {
-					r = tc.Ite(tc.Eq(idx, tc.BV(64, uint64(k*chunkSz+uint32(j)))), ch[j], r)
-				}
+		l.frozen = true
+		// first: is idx certainly inside one run / certainly outside all of them?
+		lo, hi := uint64(runs[0][0]), uint64(runs[len(runs)-1][1])
+		span := tc.And(tc.Cmp(OULE, tc.BV(64, lo), idx), tc.Cmp(OULE, idx, tc.BV(64, hi)))
+		if ex.cannot(span) {
+			return ex.readLayer(l.below, idx)
+		}
+		own := ex.layerOwnArr(l)
+		sel := tc.Select(own, tc.Extract(31, 0, idx))
+		if len(runs) == 1 && ex.cannot(tc.Not(span)) {
+			return sel
+		}
+		r := ex.readLayer(l.below, idx)
+		for _, rn := range runs {
+			var in *Term
+			if rn[0] == rn[1] {
+				in = tc.Eq(idx, tc.BV(64, uint64(rn[0])))
+			} else {
+				in = tc.And(tc.Cmp(OULE, tc.BV(64, uint64(rn[0])), idx), tc.Cmp(OULE, idx, tc.BV(64, uint64(rn[1]))))
 			}
+			if len(runs) > 1 && len(runs) <= 64 && ex.cannot(in) {
+				continue
+			}
+			r = tc.Ite(in, sel, r)
 		}
 		return r
 	case lStore:
-		return tc.Ite(tc.Eq(l.idx, idx), l.val, ex.readLayer(l.below, idx))
+		c := tc.Eq(l.idx, idx)
+		if ex.cannot(c) {
+			return ex.readLayer(l.below, idx)
+		}
+		if ex.cannot(tc.Not(c)) {
+			return l.val
+		}
+		return tc.Ite(c, l.val, ex.readLayer(l.below, idx))
 	case lMove:
 		in := tc.And(tc.Cmp(OULE, l.dst, idx), tc.Cmp(OULT, idx, tc.Bin(OAdd, l.dst, l.n)))
+		if ex.cannot(in) {
+			return ex.readLayer(l.below, idx)
+		}
 		sv := ex.readLayer(l.src, tc.Bin(OAdd, l.srcOff, tc.Bin(OSub, idx, l.dst)))
+		if ex.cannot(tc.Not(in)) {
+			return sv
+		}
 		return tc.Ite(in, sv, ex.readLayer(l.below, idx))
 	}
 	panic("readLayer: unreachable")
@@ -229,11 +288,11 @@ func (ex *Exec) readLayer(l *layer, idx *Term) *Term {
 // Move copies n bytes from src[srcOff...] into b[dst...] with memmove semantics.
 func (b *ByteArr) Move(dst *Term, src *ByteArr, srcOff *Term, n *Term) {
 	tc := b.ex.tc
-	if n.IsConst() && dst.IsConst() && srcOff.IsConst() {
+	if n.IsConst() && n.val == 0 {
+		return
+	}
+	if n.IsConst() && dst.IsConst() && srcOff.IsConst() && (n.val <= 16 || src.top.plain()) {
 		cnt := int(n.val)
-		if cnt == 0 {
-			return
-		}
 		tmp := make([]*Term, cnt)
 		for i := 0; i < cnt; i++ {
 			tmp[i] = src.Read(tc.BV(64, srcOff.val+uint64(i)))
@@ -243,19 +302,64 @@ func (b *ByteArr) Move(dst *Term, src *ByteArr, srcOff *Term, n *Term) {
 		}
 		return
 	}
-	if n.IsConst() && n.val <= 16 {
-		// small fixed-size copy at symbolic offsets: element-wise
-		cnt := int(n.val)
-		tmp := make([]*Term, cnt)
-		for i := 0; i < cnt; i++ {
-			tmp[i] = src.Read(tc.Bin(OAdd, srcOff, tc.BV(64, uint64(i))))
-		}
-		for i := 0; i < cnt; i++ {
-			b.Write(tc.Bin(OAdd, dst, tc.BV(64, uint64(i))), tmp[i])
-		}
-		return
-	}
 	sl := src.snapshot()
 	b.top.frozen = true
 	b.top = &layer{below: b.top, kind: lMove, dst: dst, n: n, src: sl, srcOff: srcOff, frozen: true, depth: b.top.depth + 1}
+}
+
+// runs returns the maximal contiguous index ranges [lo,hi] written in a concrete layer.
+func (l *layer) runs() [][2]uint32 {
+	if l.runCache != nil && l.frozen {
+		return l.runCache
+	}
+	keys := make([]uint32, 0, len(l.chunks))
+	for k := range l.chunks {
+		keys = append(keys, k)
+	}
+	sortU32(keys)
+	var out [][2]uint32
+	for _, k := range keys {
+		ch := l.chunks[k]
+		for j := 0; j < chunkSz; j++ {
+			if ch[j] == nil {
+				continue
+			}
+			i := k*chunkSz + uint32(j)
+			if n := len(out); n > 0 && out[n-1][1]+1 == i {
+				out[n-1][1] = i
+			} else {
+				out = append(out, [2]uint32{i, i})
+			}
+		}
+	}
+	if l.frozen {
+		l.runCache = out
+	}
+	return out
+}
+
+// layerOwnArr: the cells written in this concrete layer alone, as an SMT array over an all-zero base.
+func (ex *Exec) layerOwnArr(l *layer) *Term {
+	if l.ownArr != nil && l.frozen {
+		return l.ownArr
+	}
+	tc := ex.tc
+	t := tc.ConstArr()
+	keys := make([]uint32, 0, len(l.chunks))
+	for k := range l.chunks {
+		keys = append(keys, k)
+	}
+	sortU32(keys)
+	for _, k := range keys {
+		ch := l.chunks[k]
+		for j := 0; j < chunkSz; j++ {
+			if ch[j] != nil && !(ch[j].IsConst() && ch[j].val == 0) {
+				t = tc.Store(t, tc.BV(32, uint64(k*chunkSz+uint32(j))), ch[j])
+			}
+		}
+	}
+	if l.frozen {
+		l.ownArr = t
+	}
+	return t
 }
